@@ -286,52 +286,57 @@ Definition has_coin (d a : Z) (fs : list (Z * Z)) : bool := existsb (fun x => (f
 Definition with_flows (st : state) (fl : list flow) (ctr : Z) : state :=
   mkState (s_epoch st) (s_bal st) fl ctr (s_open st) (s_closed st) (s_gw st) (s_aw st) (s_snap st) (s_awh st) (s_last st).
 
+(* the fee part of open_flow: returns the flow amount after the fee adjustment and the fee messages *)
+Definition open_flow_fee (v : ver) (c : cfg) (sender : Z) (fs al : list (Z * Z)) (asset amount : Z) : outcome (Z * list msg) :=
+  let fee := c_fee c in let fa := c_fee_asset c in
+  if is_native fa then
+    match aget fa fs with
+    | None => Err E_OTHER
+    | Some paid =>
+        do amount1 <-
+          (if is_native asset && (asset =? fa) then
+             let a1 := ssub amount fee in
+             if a1 <? MIN_FLOW then Err E_OTHER else Ok a1
+           else Ok amount);
+        if paid <? fee then Err E_OTHER else
+        (* repaired: FlowAssetNotSent unless the funds sent equal flow amount + fee *)
+        do _ <- (if v_open_eq v && is_native asset && (asset =? fa)
+                 then (do s <- cadd P128 amount1 fee; ensure (paid =? s) E_OTHER) else Ok tt);
+        let refund := if (fee <? paid) && is_native asset && negb (asset =? fa)
+                      then [MSend sender fa (paid - fee)] else [] in
+        Ok (amount1, refund ++ [MSend (c_collector c) fa fee])
+    end
+  else
+    let allowance := aget0 fa al in
+    do _ <- (if is_native asset then ensure (fee <=? allowance) E_OTHER
+             else if asset =? fa then (do s <- cadd P128 fee MIN_FLOW; ensure (s <=? allowance) E_OTHER)
+             else ensure (fee <=? allowance) E_OTHER);
+    Ok (amount, [MPull sender (c_collector c) fa fee]).
+
+(* the flow asset part: verify native funds / pull the cw20 *)
+Definition open_flow_asset (c : cfg) (sender : Z) (fs al : list (Z * Z)) (asset amount1 : Z) : outcome (Z * list msg) :=
+  let fee := c_fee c in let fa := c_fee_asset c in
+  if is_native asset then
+    if is_native fa && (fa =? asset) then Ok (amount1, [])
+    else do _ <- ensure (has_coin asset amount1 fs) E_OTHER; Ok (amount1, [])
+  else
+    let allowance := aget0 asset al in
+    if is_native fa then
+      do _ <- ensure (amount1 <=? allowance) E_OTHER; Ok (amount1, [MPull sender SELF asset amount1])
+    else if fa =? asset then
+      do s <- cadd P128 fee MIN_FLOW;
+      do _ <- ensure (s <=? allowance) E_OTHER;
+      let a2 := ssub amount1 fee in Ok (a2, [MPull sender SELF asset a2])
+    else
+      do _ <- ensure (fee <=? allowance) E_OTHER; Ok (amount1, [MPull sender SELF asset amount1]).
+
 Definition open_flow (v : ver) (c : cfg) (st : state) (sender : Z) (fs al : list (Z * Z))
     (start_o end_o : option Z) (asset amount : Z) (label : option Z) : outcome (state * list msg) :=
   do _ <- ensure (MIN_FLOW <=? amount) E_OTHER;
-  let fee := c_fee c in let fa := c_fee_asset c in
-  (* fee part *)
-  do r1 <-
-    (if is_native fa then
-       match aget fa fs with
-       | None => Err E_OTHER
-       | Some paid =>
-           do amount1 <-
-             (if is_native asset && (asset =? fa) then
-                let a1 := ssub amount fee in
-                if a1 <? MIN_FLOW then Err E_OTHER else Ok a1
-              else Ok amount);
-           if paid <? fee then Err E_OTHER else
-           (* repaired: FlowAssetNotSent unless the funds sent equal flow amount + fee *)
-           do _ <- (if v_open_eq v && is_native asset && (asset =? fa)
-                    then (do s <- cadd P128 amount1 fee; ensure (paid =? s) E_OTHER) else Ok tt);
-           let refund := if (fee <? paid) && is_native asset && negb (asset =? fa)
-                         then [MSend sender fa (paid - fee)] else [] in
-           Ok (amount1, refund ++ [MSend (c_collector c) fa fee])
-       end
-     else
-       let allowance := aget0 fa al in
-       do _ <- (if is_native asset then ensure (fee <=? allowance) E_OTHER
-                else if asset =? fa then (do s <- cadd P128 fee MIN_FLOW; ensure (s <=? allowance) E_OTHER)
-                else ensure (fee <=? allowance) E_OTHER);
-       Ok (amount, [MPull sender (c_collector c) fa fee]));
+  do r1 <- open_flow_fee v c sender fs al asset amount;
   let '(amount1, msgs1) := r1 in
   do _ <- ensure (Z.of_nat (length (s_flows st)) <? c_max_flows c) E_OTHER;
-  (* flow asset part *)
-  do r2 <-
-    (if is_native asset then
-       if is_native fa && (fa =? asset) then Ok (amount1, [])
-       else do _ <- ensure (has_coin asset amount1 fs) E_OTHER; Ok (amount1, [])
-     else
-       let allowance := aget0 asset al in
-       if is_native fa then
-         do _ <- ensure (amount1 <=? allowance) E_OTHER; Ok (amount1, [MPull sender SELF asset amount1])
-       else if fa =? asset then
-         do s <- cadd P128 fee MIN_FLOW;
-         do _ <- ensure (s <=? allowance) E_OTHER;
-         let a2 := ssub amount1 fee in Ok (a2, [MPull sender SELF asset a2])
-       else
-         do _ <- ensure (fee <=? allowance) E_OTHER; Ok (amount1, [MPull sender SELF asset amount1]));
+  do r2 <- open_flow_asset c sender fs al asset amount1;
   let '(amount2, msgs2) := r2 in
   let cur := s_epoch st in
   do dflt <- cadd P64 cur FLOW_DURATION;
@@ -346,6 +351,27 @@ Definition open_flow (v : ver) (c : cfg) (st : state) (sender : Z) (fs al : list
   Ok (with_flows st (flows_save f (s_flows st)) id, msgs1 ++ msgs2).
 
 (* ---- expand_flow.rs -------------------------------------------------------------------------------- *)
+(* validate that the expansion is sent: native funds are checked, a cw20 is pulled *)
+Definition expand_payment (sender : Z) (fs al : list (Z * Z)) (asset amount : Z) : outcome (list msg) :=
+  if is_native asset then
+    do paid <- must_pay fs asset; if paid =? amount then Ok [] else Err E_OTHER
+  else if aget0 asset al <? amount then Err E_OTHER else Ok [MPull sender SELF asset amount].
+
+(* the reset of a flow that spans more than FLOW_EXPANSION_LIMIT epochs *)
+Definition expand_reset (v : ver) (f : flow) (cur expanded_end asset amount : Z) : flow :=
+  (* repaired: the default is the flow's own amount (the code as found used the expansion amount) *)
+  let flow_amount := match hist_last (f_hist f) with Some (a, _) => a
+                     | None => if v_reset_own v then f_amount f else amount end in
+  mkFlow (f_id f) (f_label f) (f_creator f) asset (ssub flow_amount (f_claimed f)) 0 cur expanded_end [] [].
+
+(* record the expansion in the asset history at the next epoch *)
+Definition expand_record (f1 : flow) (cur next end_e amount : Z) : outcome flow :=
+  match hist_get next (f_hist f1) with
+  | Some (existing, _) => do a <- cadd P128 existing amount; Ok (set_hist f1 (hist_put next (a, end_e) (f_hist f1)))
+  | None => do a <- cadd P128 (get_flow_asset_amount_at_epoch f1 cur) amount;
+            Ok (set_hist f1 (hist_put next (a, end_e) (f_hist f1)))
+  end.
+
 Definition expand_flow (v : ver) (c : cfg) (st : state) (sender : Z) (fs al : list (Z * Z))
     (x : ident) (end_o : option Z) (asset amount : Z) : outcome (state * list msg) :=
   match find_flow x (s_flows st) with
@@ -355,30 +381,16 @@ Definition expand_flow (v : ver) (c : cfg) (st : state) (sender : Z) (fs al : li
       let expanded_end := get_flow_end_epoch f in
       do _ <- ensure (cur <=? expanded_end) E_OTHER;
       do _ <- ensure (f_asset f =? asset) E_OTHER;
-      do ms <-
-        (if is_native asset then
-           do paid <- must_pay fs asset; if paid =? amount then Ok [] else Err E_OTHER
-         else if aget0 asset al <? amount then Err E_OTHER else Ok [MPull sender SELF asset amount]);
+      do ms <- expand_payment sender fs al asset amount;
       do expand_until <-
         (if ssub expanded_end cur <? EXP_BUFFER then cadd P64 expanded_end FLOW_DURATION else Ok expanded_end);
       let end_e := match end_o with Some e => e | None => expand_until end in
       do _ <- ensure (expanded_end <=? end_e) E_OTHER;
-      (* reset *)
-      let '(flows1, f1) :=
-        if EXP_LIMIT <? ssub expanded_end (f_start f) then
-          (* repaired: the default is the flow's own amount (the code as found used the expansion amount) *)
-          let flow_amount := match hist_last (f_hist f) with Some (a, _) => a
-                             | None => if v_reset_own v then f_amount f else amount end in
-          (flows_remove (f_start f) (f_id f) (s_flows st),
-           mkFlow (f_id f) (f_label f) (f_creator f) asset (ssub flow_amount (f_claimed f)) 0 cur expanded_end [] [])
-        else (s_flows st, f) in
+      let reset := EXP_LIMIT <? ssub expanded_end (f_start f) in
+      let flows1 := if reset then flows_remove (f_start f) (f_id f) (s_flows st) else s_flows st in
+      let f1 := if reset then expand_reset v f cur expanded_end asset amount else f in
       do next <- cadd P64 cur 1;
-      do f2 <-
-        match hist_get next (f_hist f1) with
-        | Some (existing, _) => do a <- cadd P128 existing amount; Ok (set_hist f1 (hist_put next (a, end_e) (f_hist f1)))
-        | None => do a <- cadd P128 (get_flow_asset_amount_at_epoch f1 cur) amount;
-                  Ok (set_hist f1 (hist_put next (a, end_e) (f_hist f1)))
-        end;
+      do f2 <- expand_record f1 cur next end_e amount;
       (* total_flow_asset attribute: sum of all history amounts + flow amount, Uint128 `Sum` (unchecked) then checked_add *)
       let tot := sumZ (map (fun e => fst (snd e)) (f_hist f2)) in
       do _ <- must (tot <? P128);
